@@ -486,8 +486,48 @@ def rule_adv(repo, rid='C15.ADV'):
     return res
 
 
+@guarded
+def rule_commit(repo):
+    """set_refpoint replaces FIVE attributes that belong together: the point (_ref_state, _ref_input, _ref_t) and the values of f and g there (_ref_f, _ref_g).  f and g
+    are the user's functions and may raise.  The point is stored first and f, g are evaluated at the STORED point, so whatever is left behind when one of them
+    raises describes one reference point: A, B (from the stored point) and c1 (from _ref_f) agree.  Storing _ref_f before the point is committed leaves A, B at
+    the old point and c1 at the new one when g raises and the caller carries on."""
+    res = RuleResult('C15.COMMIT', 'NLS.set_refpoint stores the reference point (_ref_state, _ref_input, _ref_t) before it stores a value computed at it (_ref_f, _ref_g), '
+                     'and evaluates f and g at the stored point', floor=2)
+    f = repo.func(DYN, 'NLS.set_refpoint')
+    order = []
+    for st in f.node.body:
+        for a in ast.walk(st):
+            if isinstance(a, ast.Assign):
+                for t in a.targets:
+                    for x in ([t] if not isinstance(t, ast.Tuple) else t.elts):
+                        d = dotted(x)
+                        if d and d.startswith('self._ref_'):
+                            order.append((d[len('self._ref_'):], a))
+    names = [n for n, _ in order]
+    point = {'state', 'input', 't'}
+    if not point <= set(names) or not {'f', 'g'} <= set(names):
+        raise AnalysisError('C15.COMMIT: the five reference attributes are no longer all stored by set_refpoint (%s)' % names)
+    last_point = max(i for i, n in enumerate(names) if n in point)
+    for val in ('f', 'g'):
+        i = names.index(val)
+        st = order[i][1]
+        before = i > last_point
+        args = [dotted(x) for c in ast.walk(st.value) if isinstance(c, ast.Call) for x in c.args]
+        at_stored = all(a_ in ('self._ref_state', 'self._ref_input', 'self._ref_t') for a_ in args if a_) and bool(args)
+        res.inst({'function': f.fq, 'value': '_ref_' + val, 'stored after the point': before, 'evaluated at the stored point': at_stored}, (f.fq, val))
+        if not before:
+            res.add(Finding('C15.COMMIT', f, '`%s` is stored before the reference point is committed: when the other user function raises afterwards and the caller carries '
+                            'on, A / B (C / D) are the Jacobians at the OLD point and c1 (c2) is built from the value at the NEW one - the affine model reproduces '
+                            'neither' % src(st)[:60], node=st, construct='value stored before the point|' + val))
+        elif not at_stored:
+            res.add(Finding('C15.COMMIT', f, '`%s` evaluates the user function at local values, not at the stored reference attributes: the point the Jacobians are taken '
+                            'at and the point of the stored value are two expressions that can drift apart' % src(st)[:60], node=st, construct='value not at the stored point|' + val))
+    return res
+
+
 def _rules_core(repo, tier):
-    return [rule_own_hook(repo), rule_super(repo), rule_lin(repo), rule_eq(repo), rule_pure(repo), rule_snap(repo), rule_last(repo), rule_adv(repo)]
+    return [rule_own_hook(repo), rule_super(repo), rule_lin(repo), rule_eq(repo), rule_pure(repo), rule_snap(repo), rule_last(repo), rule_adv(repo), rule_commit(repo)]
 
 
 def rules(repo, tier):
